@@ -176,6 +176,10 @@ inductive Ty where
   | pattern (pats : List Bytes)         -- `Pattern[/a/, /b/]`
   | tref (s : Bytes)                    -- `TypeReference['s']`
   | semverT (orig : Bytes) (rs : List ARange)   -- `SemVer[range]`: the string the range was parsed from, and the parsed ranges
+  | hash (k v : Ty) (lo hi : Int)               -- `Hash[K, V, lo, hi]`
+  | like (base : Ty) (nav : Bytes)              -- `Like[T, 'navigation']`
+  | callable (ts : Option (List Ty))            -- `Callable` / `Callable[T1, …, Tn]` (no block, no return type)
+  | runtime (rt name : Bytes) (pat : Option Bytes)   -- `Runtime['rt', 'name', Regexp[/pat/]]`
   deriving Inhabited
 
 def Ty.isAny : Ty → Bool
@@ -203,6 +207,9 @@ def Ty.name : Ty → Bytes
   | .rx _ => [0x52, 0x65, 0x67, 0x65, 0x78, 0x70] | .pattern _ => [0x50, 0x61, 0x74, 0x74, 0x65, 0x72, 0x6e]
   | .tref _ => [0x54, 0x79, 0x70, 0x65, 0x52, 0x65, 0x66, 0x65, 0x72, 0x65, 0x6e, 0x63, 0x65]
   | .semverT _ _ => [0x53, 0x65, 0x6d, 0x56, 0x65, 0x72]
+  | .hash _ _ _ _ => [0x48, 0x61, 0x73, 0x68] | .like _ _ => [0x4c, 0x69, 0x6b, 0x65]
+  | .callable _ => [0x43, 0x61, 0x6c, 0x6c, 0x61, 0x62, 0x6c, 0x65]
+  | .runtime _ _ _ => [0x52, 0x75, 0x6e, 0x74, 0x69, 0x6d, 0x65]
 
 /-- `utils.ContainsAllStrings(a, b)`: every member of `b` occurs in `a` -/
 def containsAll (a b : List Bytes) : Bool := b.all fun s => a.contains s
@@ -241,6 +248,9 @@ def rxKey (p : Bytes) : Bytes := [1, 0x72] ++ p
 
 /-- `semver.MatchAll`: the one range `>=0.0.0-` (the range of the default SemVer type) -/
 def matchAllR : List ARange := [.simple ⟨.ge, verMin⟩]
+
+/-- the key of the type `Regexp[/p/]` (a parameter of a Runtime type) -/
+def rxTyKey (p : Bytes) : Bytes := [1, 0x74] ++ ekStr [0x52, 0x65, 0x67, 0x65, 0x78, 0x70] ++ (if p.isEmpty then [] else frame (rxKey p))
 
 /-- `TypeReference`'s default type string -/
 def unresolvedRef : Bytes :=
@@ -287,11 +297,26 @@ def tyKey : Ty → Bytes
   | .un k t => [1, 0x74] ++ ekStr (Ty.un k .any).name ++ wrapParam (k == .notUndef) t (tyKey t)
   | .strSize lo hi => [1, 0x74] ++ ekStr (Ty.strSize lo hi).name ++ intParams lo hi     -- `t.size.Parameters()`
   | .strVal v => [1, 0x74] ++ ekStr (Ty.strVal v).name ++ ekStr v                        -- `vcStringType.ToKey`
-  | .rx p => [1, 0x74] ++ ekStr (Ty.rx p).name ++ (if p.isEmpty then [] else frame (rxKey p))
+  | .rx p => rxTyKey p
   | .pattern ps => [1, 0x74] ++ ekStr (Ty.pattern ps).name ++ unorderedParams (ps.map rxKey)
   | .tref s => [1, 0x74] ++ ekStr (Ty.tref s).name ++ (if s = unresolvedRef then [] else ekStr s)
   -- `SemVerType.ToKey` (/repo fix 1eb7fb4): the NORMALIZED range, absent for `MatchAll`
   | .semverT o rs => [1, 0x74] ++ ekStr (Ty.semverT o rs).name ++ (if rangesEq rs matchAllR then [] else ekStr (normStr rs))
+  -- `HashType.Parameters()`: nothing for the default, `0, 0` for the empty hash type (Unit, Unit, [0,0]), else both types and
+  -- the size unless it is Integer[0]
+  | .hash k v lo hi => [1, 0x74] ++ ekStr (Ty.hash k v lo hi).name ++
+      (if (k.isAny ∧ v.isAny) ∧ (lo = 0 ∧ hi = maxInt) then []
+       else if (k.isUnit ∧ v.isUnit) ∧ (lo = 0 ∧ hi = 0) then ekInt 0 ++ ekInt 0
+       else frame (tyKey k) ++ (frame (tyKey v) ++ (if lo = 0 ∧ hi = maxInt then [] else sizeParams lo hi)))
+  | .like b n => [1, 0x74] ++ ekStr (Ty.like b n).name ++ (if b.isAny ∧ n.isEmpty then [] else frame (tyKey b) ++ ekStr n)
+  -- `CallableType.Parameters()`: the parameters of the Tuple of parameter types, Unit left out
+  | .callable none => [1, 0x74] ++ ekStr (Ty.callable none).name
+  | .callable (some ts) => [1, 0x74] ++ ekStr (Ty.callable none).name ++ tyKeysNU ts
+  -- `RuntimeType.Parameters()` (/repo fix 1cd0d3f): nothing for the default only; else the runtime, the name unless it is
+  -- empty, the pattern (a Regexp type) if there is one
+  | .runtime rt n p => [1, 0x74] ++ ekStr (Ty.runtime rt n p).name ++
+      (if (rt.isEmpty ∧ n.isEmpty) ∧ p.isNone then []
+       else ekStr rt ++ ((if n.isEmpty then [] else ekStr n) ++ (match p with | none => [] | some p => frame (rxTyKey p))))
 def tyKeys : List Ty → Bytes
   | [] => []
   | t :: ts => frame (tyKey t) ++ tyKeys ts
@@ -299,6 +324,10 @@ def tyKeys : List Ty → Bytes
 def tyKeyL : List Ty → List Bytes
   | [] => []
   | t :: ts => tyKey t :: tyKeyL ts
+/-- the framed keys of the types that are not Unit (`px.Select(tupleParams, not *UnitType)`) -/
+def tyKeysNU : List Ty → Bytes
+  | [] => []
+  | t :: ts => (if t.isUnit then [] else frame (tyKey t)) ++ tyKeysNU ts
 end
 
 mutual
@@ -339,6 +368,11 @@ def tyEq : Ty → Ty → Bool
       | _ => false
   | .tref s, b => match b with | .tref s' => s == s' | _ => false
   | .semverT _ rs, b => match b with | .semverT _ rs' => rangesEq rs rs' | _ => false
+  | .hash k v lo hi, b => match b with | .hash k' v' lo' hi' => (lo == lo' && hi == hi') && tyEq k k' && tyEq v v' | _ => false
+  | .like t n, b => match b with | .like t' n' => n == n' && tyEq t t' | _ => false
+  -- `CallableType.Equals` is a bare type assertion: ANY two Callable types are Equal (known finding C07-callable-all-equal)
+  | .callable _, b => match b with | .callable _ => true | _ => false
+  | .runtime rt n p, b => match b with | .runtime rt' n' p' => rt == rt' && n == n' && p == p' | _ => false
 termination_by structural a => a
 /-- `b.Equals(a)` (the argument receives the call), by recursion on `a` -/
 def tyEqR : Ty → Ty → Bool
@@ -375,6 +409,10 @@ def tyEqR : Ty → Ty → Bool
       | _ => false
   | .tref s, b => match b with | .tref s' => s' == s | _ => false
   | .semverT _ rs, b => match b with | .semverT _ rs' => rangesEq rs' rs | _ => false
+  | .hash k v lo hi, b => match b with | .hash k' v' lo' hi' => (lo' == lo && hi' == hi) && tyEqR k k' && tyEqR v v' | _ => false
+  | .like t n, b => match b with | .like t' n' => n' == n && tyEqR t t' | _ => false
+  | .callable _, b => match b with | .callable _ => true | _ => false
+  | .runtime rt n p, b => match b with | .runtime rt' n' p' => rt' == rt && n' == n && p' == p | _ => false
 termination_by structural a => a
 /-- pointwise `ts[i].Equals(us[i])` (lengths already compared) -/
 def tyEqL : List Ty → List Ty → Bool
